@@ -355,8 +355,9 @@ class BQLShell(DispatchingShell):
     """An interactive shell interpreter for the Beancount query language."""
     prompt = 'beanquery> '
 
-    def __init__(self, filename, outfile, interactive=False, runinit=False, format='text', numberify=False):
+    def __init__(self, filename, outfile, interactive=False, runinit=False, format='text', numberify=False, report_errors=True):
         settings = Settings(format=format, numberify=numberify)
+        self.report_errors = report_errors
         super().__init__(outfile, interactive, runinit, settings)
         self.context = beanquery.connect(None)
         self.filename = filename
@@ -380,7 +381,7 @@ class BQLShell(DispatchingShell):
         self.context.attach('beancount:' + self.filename)
         table = self.context.tables['entries']
         self._extract_queries(table.entries)
-        if self.context.errors:
+        if self.context.errors and self.report_errors:
             printer.print_errors(self.context.errors, file=sys.stderr)
         if self.interactive:
             print_statistics(table.entries, table.options, self.outfile)
@@ -756,7 +757,7 @@ def main(filename, query, numberify, format, output, no_errors):
     """
     # Create the shell.
     interactive = sys.stdin.isatty() and not query
-    shell = BQLShell(filename, output, interactive, True, format, numberify)
+    shell = BQLShell(filename, output, interactive, True, format, numberify, not no_errors)
 
     # Run interactively if we're a TTY and no query is supplied.
     if interactive:
